@@ -1,0 +1,23 @@
+//go:build verif
+
+// Machine-checked contracts for this package (comment-only; compiled only with -tags verif,
+// and even then contributes no code).  Read by /verif/govc; see /verif/DESIGN.md.
+
+package hash
+
+//@ ghost glHash string
+
+//@ -- a name keeps its suffix iff prefix+suffix fits and is not the ambiguous exact fit that starts with the marker
+//@ spec func glFits(p string, s string, max int) bool = len(p) + len(s) < max || (len(p) + len(s) == max && s[0:1] != "_")
+//@ spec func glSuffix(s string) string = s == "" ? "_" : s
+
+//@ -- Every name fits the limit and starts with its prefix; a name that fits is kept verbatim; otherwise it is
+//@ -- prefix + "_" + a leading part of the (base64 SHA-256) hash text of the suffix, using all the room there is.
+//@ func GetLengthLimitedID
+//@   property C37
+//@   option mathint
+//@   requires len(fixedPrefix) + 2 <= maxLength
+//@   ghost at call EncodeToString: glHash = res
+//@   ensures len(res) <= maxLength && hasPrefix(res, fixedPrefix)
+//@   ensures glFits(fixedPrefix, glSuffix(suffix), maxLength) ==> res == fixedPrefix + glSuffix(suffix)
+//@   ensures !glFits(fixedPrefix, glSuffix(suffix), maxLength) ==> len(glHash) == 43 && res == fixedPrefix + "_" + glHash[0:(maxLength - 1 - len(fixedPrefix) < 43 ? maxLength - 1 - len(fixedPrefix) : 43)]
